@@ -362,6 +362,7 @@ func runC05(c *explore.Ctx) {
 	}
 	// sizes outermost: if the internal deadline ends the run, every size below the one in progress
 	// has been explored completely under every mode (reported in coverage.notes)
+	sparseInLarge(c)
 	largeIterWalks(c)
 	zooEach(c, false, func(idx int64, z *zooSeg) { zooPostings(c, idx, z, 12) })
 	for n := 0; n <= N; n++ {
@@ -491,6 +492,91 @@ func iterConfigsForBatch(c *explore.Ctx, scope string, idx int64, batch []model.
 					runIterConfig(c, scope, idx, cfg, false)
 					if c.Expired() {
 						return
+					}
+				}
+			}
+		}
+	}
+}
+
+// sparseInLarge: SPARSE-LARGE - a list of six postings in a segment of 3000 / 5000 documents (adaptive
+// mode: ONE chunk as long as the segment, gaps of thousands of documents between postings, two
+// adjacent ones): every subset of the six as exclusion set, also with excluded documents that carry
+// no posting, Next walks and Advance strides, all flag sets.
+func sparseInLarge(c *explore.Ctx) {
+	scope := "SPARSE-LARGE"
+	var idx int64
+	for _, n := range []int{3000, 5000} {
+		hits := []int{10, 100, 2000, 2001, n - 400, n - 1}
+		batch := make([]model.Doc, n)
+		for i := range batch {
+			batch[i] = model.Doc{{N: "a", Len: 1, Terms: []model.Term{{T: "z", Freq: 1}}}}
+		}
+		for k, d := range hits {
+			locs := make([]model.Loc, k+1)
+			for j := range locs {
+				locs[j] = model.Loc{P: j + 1, S: 100*k + j, E: 100*k + j + 2}
+			}
+			batch[d] = model.Doc{gen.IDField("s", d), {N: "a", Len: k + 2, Terms: []model.Term{{T: "x", Freq: k + 1, Locs: locs}, {T: "z", Freq: 1}}}}
+		}
+		ls := model.Build(batch)
+		for _, mode := range []uint32{1025, 1024} {
+			seg, err := build(batch, mode)
+			if err != nil {
+				c.Violate(scope, idx, sigOf("C05", "build", "error: "+err.Error()), err.Error(), fmt.Sprint(n))
+				return
+			}
+			for sub := 0; sub < 1<<len(hits); sub++ {
+				for extra := 0; extra < 2; extra++ {
+					my := idx
+					idx++
+					if !c.MineIdx(scope, my) || c.Expired() {
+						continue
+					}
+					ex := roaring.New()
+					exSet := map[uint64]bool{}
+					for k, d := range hits {
+						if sub&(1<<k) != 0 {
+							ex.Add(uint32(d))
+							exSet[uint64(d)] = true
+						}
+					}
+					if extra == 1 {
+						for _, d := range []int{0, 11, 1999, 2002, n - 2} {
+							ex.Add(uint32(d))
+							exSet[uint64(d)] = true
+						}
+					}
+					exp, all := expFor(ls, func(d uint64) bool { return !exSet[d] })
+					for _, stride := range []uint64{0, 1, 90, 1025, 1900} {
+						for _, flags := range []int{7, 1, 2, 0} {
+							c.Eval()
+							c.R.Distinct++
+							c.Nontrivial()
+							cfg := &iterCfg{seg: seg, numDocs: uint64(n), except: ex, flags: flags, exp: exp, all: all,
+								desc: fmt.Sprintf("SPARSE-LARGE #%d n=%d mode=%d postings at %v, excluded subset %06b (+5 other documents: %v) stride=%d flags=%03b", my, n, mode, hits, sub, extra == 1, stride, flags)}
+							m, err := newIterMachine(cfg, nil)
+							if err != nil {
+								c.Violate(scope, my, sigOf("C05", "setup", "error: "+err.Error()), err.Error(), cfg.desc)
+								continue
+							}
+							target := uint64(0)
+							for steps := 0; steps < 12 && m.ended < 2; steps++ {
+								op := 0
+								if stride > 0 {
+									op = int(target) + 1
+									target += stride
+									if stride > 1 && steps > 0 && steps%2 == 0 {
+										op = 0 // mix Next into the strides
+									}
+								}
+								c.R.Transitions++
+								if v := m.Step(op); v != "" {
+									c.Violate(scope, my, sigOf("C05", "sparse-large", v), v, cfg.desc)
+									break
+								}
+							}
+						}
 					}
 				}
 			}
